@@ -1424,6 +1424,8 @@ def get_frame_from_multiplexed_ipdu(pdu, target_frame, multiplex_translation, ea
     ipdu = ea.follow_ref(static_part, "I-PDU-REF")
     if ipdu is not None:
         pdu_sig_mappings = ea.get_child(ipdu, "SIGNAL-TO-PDU-MAPPINGS")
+        if pdu_sig_mappings is None:
+            pdu_sig_mappings = ea.get_child(ipdu, "I-SIGNAL-TO-PDU-MAPPINGS")  # AR4
         pdu_sig_mapping = ea.get_children(pdu_sig_mappings, "I-SIGNAL-TO-I-PDU-MAPPING")
         get_signals(pdu_sig_mapping, target_frame, ea, None, float_factory)
         multiplex_translation[ea.get_element_name(ipdu)] = ea.get_element_name(pdu)
@@ -1442,6 +1444,8 @@ def get_frame_from_multiplexed_ipdu(pdu, target_frame, multiplex_translation, ea
         multiplex_translation[ea.get_element_name(ipdu)] = ea.get_element_name(pdu)
         if ipdu is not None:
             pdu_sig_mappings = ea.get_child(ipdu, "SIGNAL-TO-PDU-MAPPINGS")
+            if pdu_sig_mappings is None:
+                pdu_sig_mappings = ea.get_child(ipdu, "I-SIGNAL-TO-PDU-MAPPINGS")  # AR4
             pdu_sig_mapping = ea.get_children(pdu_sig_mappings, "I-SIGNAL-TO-I-PDU-MAPPING")
 
             get_signals(pdu_sig_mapping, target_frame, ea, selector_id.text, float_factory)
